@@ -5,5 +5,6 @@ cd "$(dirname "$0")/.."
 . bin/env.sh
 mkdir -p build evidence replays
 bin/build.sh main
-[ -f overlays/mk_runtime_map.py ] && bin/build.sh map || true
+bin/build.sh map
+bin/build.sh race
 echo "setup ok"
